@@ -186,7 +186,7 @@ def _from_bytes_of(repo, fi, size: str, signed: str) -> bool:
     return False
 
 
-@rule("C14.3", ["C14"], "each encoder's encode/decode are dual and validate() rejects exactly the unrepresentable values", 14)
+@rule("C14.3", ["C14", "C15"], "each encoder's encode/decode are dual and validate() rejects exactly the unrepresentable values", 14)
 def c14_3(ctx: Ctx):
     repo = ctx.repo
     E = "dwarf._encoders."
